@@ -52,10 +52,21 @@ def anchor_fingerprint(path):
     return hashlib.sha256(ast.dump(tree, include_attributes=False).encode()).hexdigest()[:24]
 
 
+def anchor_files(prop, plugin):
+    """The plugin's ANCHOR_FILES, else the files the property is anchored in (properties.jsonl)."""
+    files = list(getattr(plugin, 'ANCHOR_FILES', []))
+    if not files:
+        for line in open(os.path.join(VERIF, 'properties.jsonl')):
+            rec = json.loads(line)
+            if rec['id'] == prop:
+                files = [f for f in rec['anchors']['files'] if f.startswith('src/')]
+    return files
+
+
 def check_anchors(ctx, plugin):
     """Compare the anchored source files with the fingerprints recorded when the model was written (harness/anchors.json).
     A difference is not a violation: it only makes the quick tier spend more effort (Ctx.n) and is noted in the evidence."""
-    files = list(getattr(plugin, 'ANCHOR_FILES', []))
+    files = anchor_files(ctx.prop, plugin)
     rec_path = os.path.join(VERIF, 'harness', 'anchors.json')
     rec = json.load(open(rec_path)) if os.path.exists(rec_path) else {}
     changed = []
